@@ -440,7 +440,7 @@ type verdict struct {
 	key, msg string
 	harness  bool
 	info     []string // informational classes
-	excluded []string
+	known    []knownHit
 }
 
 func violation(key, format string, args ...any) *verdict {
@@ -451,6 +451,8 @@ func violation(key, format string, args ...any) *verdict {
 type handle struct {
 	obs     any
 	written string
+	topLint bool // buf.yaml: a top-level lint / breaking config exists (not part of the compared observation)
+	topBrk  bool
 }
 
 func process(ctx context.Context, c docCase, text string) (h handle, readErr error, writeErr error) {
@@ -462,6 +464,7 @@ func process(ctx context.Context, c docCase, text string) (h handle, readErr err
 			return h, err, nil
 		}
 		h.obs = observeBufYAML(f)
+		h.topLint, h.topBrk = f.TopLevelLintConfig() != nil, f.TopLevelBreakingConfig() != nil
 		writeErr = bufconfig.WriteBufYAMLFile(&buf, f)
 	case "buf.lock":
 		f, err := bufconfig.ReadBufLockFile(ctx, strings.NewReader(text), c.FileName)
@@ -496,7 +499,11 @@ func process(ctx context.Context, c docCase, text string) (h handle, readErr err
 }
 
 // checkDoc: observe(Read(Write(Read(d)))) == observe(Read(d)) and Write is idempotent.
-func checkDoc(ctx context.Context, c docCase) *verdict {
+//
+// isKnown tells whether a classifier key is an open known finding. A field difference with such a key
+// is reported in verdict.known and the field is then blanked on both sides, so the comparison goes on
+// to the remaining fields (a listed finding must not hide other differences of the same document).
+func checkDoc(ctx context.Context, c docCase, isKnown func(string) bool) *verdict {
 	tag := c.Doc + ":" + c.Version
 	h1, rerr, werr := process(ctx, c, c.Text)
 	if rerr != nil {
@@ -510,20 +517,85 @@ func checkDoc(ctx context.Context, c docCase) *verdict {
 		return violation("reread-failed:"+tag, "the file written for a valid %s document is rejected by the reader: %v\ndocument:\n%s\nwritten:\n%s", tag, rerr, c.Text, h1.written)
 	}
 	v := &verdict{}
+	if h1.topLint != h2.topLint || h1.topBrk != h2.topBrk {
+		// Not asserted: the statement is about the effective per-module settings; the writer hoists or
+		// splits sections on purpose. Counted so that the frequency is visible in the evidence.
+		v.info = append(v.info, "info:"+tag+":top-level-section-presence-changes")
+	}
 	before, after := h1.obs, h2.obs
 	if c.Doc == "buf.gen.yaml" && c.Version != "v2" {
 		before = normalizeLegacyGen(h1.obs.(obsBufGen), h2.obs.(obsBufGen))
 	}
-	if path, detail := firstDiff("", toGeneric(before), toGeneric(after)); path != "" {
-		return violation("roundtrip:"+tag+":"+classifier(path), "%s: field %s differs after write+read: %s\ndocument:\n%s\nwritten:\n%s", tag, path, detail, c.Text, h1.written)
+	gb, ga := toGeneric(before), toGeneric(after)
+	for round := 0; ; round++ {
+		path, detail := firstDiff("", gb, ga)
+		if path == "" {
+			break
+		}
+		class := classifier(path)
+		key := "roundtrip:" + tag + ":" + class
+		msg := fmt.Sprintf("%s: field %s differs after write+read: %s\ndocument:\n%s\nwritten:\n%s", tag, path, detail, c.Text, h1.written)
+		parts := strings.Split(class, ".")
+		if round < 8 && isKnown != nil && isKnown(key) && len(parts) == 2 {
+			v.known = append(v.known, knownHit{key: key, msg: msg})
+			blankField(gb, parts[0], parts[1])
+			blankField(ga, parts[0], parts[1])
+			continue
+		}
+		v.key, v.msg = key, msg
+		return v
 	}
 	if werr != nil {
-		return violation("write-failed:"+tag, "second write of %s failed: %v\ndocument:\n%s\nfirst written:\n%s", tag, werr, c.Text, h1.written)
+		v.key, v.msg = "write-failed:"+tag, fmt.Sprintf("second write of %s failed: %v\ndocument:\n%s\nfirst written:\n%s", tag, werr, c.Text, h1.written)
+		return v
 	}
 	if h2.written != h1.written {
-		return violation("write-not-idempotent:"+tag, "%s: Write(Read(Write(Read(d)))) differs from Write(Read(d))\ndocument:\n%s\nfirst:\n%s\nsecond:\n%s", tag, c.Text, h1.written, h2.written)
+		v.key = "write-not-idempotent:" + tag
+		v.msg = fmt.Sprintf("%s: Write(Read(Write(Read(d)))) differs from Write(Read(d))\ndocument:\n%s\nfirst:\n%s\nsecond:\n%s", tag, c.Text, h1.written, h2.written)
 	}
 	return v
+}
+
+type knownHit struct{ key, msg string }
+
+// blankField removes `field` from every element of the top-level list `list`.
+func blankField(tree any, list, field string) {
+	m, ok := tree.(map[string]any)
+	if !ok {
+		return
+	}
+	l, ok := m[list].([]any)
+	if !ok {
+		return
+	}
+	for _, e := range l {
+		if em, ok := e.(map[string]any); ok {
+			delete(em, field)
+		}
+	}
+}
+
+// report hands the verdict of one document to the recorder.
+func reportDoc(t evid.TB, r *evid.Recorder, v *verdict, c docCase) {
+	if v == nil {
+		return
+	}
+	if v.harness {
+		t.Fatalf("%s", v.msg)
+		return
+	}
+	for _, i := range v.info {
+		r.Class(i)
+	}
+	for _, k := range v.known {
+		// open known finding: counted, does not fail the test
+		if !r.Fail(t, k.key, k.msg, c) {
+			return
+		}
+	}
+	if v.key != "" {
+		r.Fail(t, v.key, v.msg, c)
+	}
 }
 
 // ---------------------------------------------------------------------------------------------
@@ -548,23 +620,14 @@ func runDocs(t *testing.T, salt int, quick, thorough int, gen func(*rapid.T) cfg
 			r.NonTrivial(d.Kind + "\x00" + d.Text)
 			r.Sample(map[string]any{"kind": d.Kind, "version": d.Version, "text": d.Text})
 		}
-		v := checkDoc(ctx, c)
-		if v == nil {
-			return
-		}
-		if v.harness {
-			t.Fatalf("%s", v.msg)
-		}
-		if v.key != "" {
-			r.Fail(t, v.key, v.msg, c)
-		}
+		reportDoc(t, r, checkDoc(ctx, c, r.IsKnown), c)
 	})
 }
 
-func TestRoundTripBufYAML(t *testing.T) { runDocs(t, 1, 2400, 60000, cfggen.GenBufYAML) }
-func TestRoundTripBufLock(t *testing.T) { runDocs(t, 2, 600, 12000, cfggen.GenBufLock) }
-func TestRoundTripBufWork(t *testing.T) { runDocs(t, 3, 300, 4000, cfggen.GenBufWork) }
-func TestRoundTripBufGen(t *testing.T)  { runDocs(t, 4, 1500, 30000, cfggen.GenBufGen) }
+func TestRoundTripBufYAML(t *testing.T) { runDocs(t, 1, 2400, 140000, cfggen.GenBufYAML) }
+func TestRoundTripBufLock(t *testing.T) { runDocs(t, 2, 600, 28000, cfggen.GenBufLock) }
+func TestRoundTripBufWork(t *testing.T) { runDocs(t, 3, 300, 7000, cfggen.GenBufWork) }
+func TestRoundTripBufGen(t *testing.T)  { runDocs(t, 4, 1500, 70000, cfggen.GenBufGen) }
 
 func replayDoc(t *testing.T, raw json.RawMessage) {
 	var c docCase
@@ -573,14 +636,25 @@ func replayDoc(t *testing.T, raw json.RawMessage) {
 	}
 	r := evid.R()
 	r.Eval()
-	v := checkDoc(context.Background(), c)
-	if v == nil {
+	reportDoc(t, r, checkDoc(context.Background(), c, r.IsKnown), c)
+}
+
+// TestKnownFindings: one minimal directed document per listed finding of the round-trip part, so that a
+// finding that is still present is reported on every run (and silently stops being reported once fixed).
+func TestKnownFindings(t *testing.T) {
+	r := evid.R()
+	defer r.Begin(t)()
+	if !r.Mine(0) {
 		return
 	}
-	if v.harness {
-		t.Fatalf("%s", v.msg)
-	}
-	if v.key != "" {
-		r.Fail(t, v.key, v.msg, c)
+	for _, text := range []string{
+		"version: v2\nplugins:\n  - local: protoc-gen-go\n    out: gen\n    types:\n      - foo.Bar\n",
+		"version: v2\nplugins:\n  - local: protoc-gen-go\n    out: gen\n    exclude_types:\n      - foo.Baz\n",
+		"version: v2\nplugins:\n  - local: protoc-gen-go\n    out: gen\ninputs:\n  - directory: proto\n    exclude_types:\n      - foo.Baz\n",
+	} {
+		c := docCase{Kind: "doc", Doc: "buf.gen.yaml", Version: "v2", FileName: "buf.gen.yaml", Text: text}
+		r.Eval()
+		r.Class("directed-known-finding-regression")
+		reportDoc(t, r, checkDoc(context.Background(), c, r.IsKnown), c)
 	}
 }
